@@ -168,10 +168,12 @@ type Record struct {
 	Kind     string   `json:"kind,omitempty"` // "" (reader schedules) | stop (C06 free schedules) | c17free | stress
 	Stored   []int    `json:"stored"`         // appended and not wiped since (nil: same as appended)
 	// c17 free schedules
-	SyncedBad int   `json:"syncedBad"`
-	FinalTail int   `json:"finalTail"`
-	TailWant  int   `json:"tailWant"`
-	Missing   []int `json:"missing"`
+	SyncedBad   int   `json:"syncedBad"`
+	FinalTail   int   `json:"finalTail"`
+	TailWant    int   `json:"tailWant"`
+	Missing     []int `json:"missing"`
+	RestartHead int   `json:"restartHead"` // Head / Tail of a fresh Store on the same datastore after a clean Stop (-1: could not start)
+	RestartTail int   `json:"restartTail"`
 	// c06 free schedules: Stop in the middle, reopen
 	StopHung           bool   `json:"stopHung"`
 	ReopenErr          string `json:"reopenErr"`
